@@ -21,7 +21,8 @@ PROPS = {
                  "out by libc::input_event — every code 0..0x2ff (quick) / 0..0xffff (thorough) x value {0,1,2}, seeded mixtures with EV_SYN, EV_MSC, "
                  "value 2, unknown codes, out-of-range values and types, writer-shaped batches with foreign records interleaved — plus garbage / "
                  "truncated byte streams; evaluations = cases run on the real code and the model; distinct_nontrivial = distinct case inputs that "
-                 "contain at least one event / record / byte"),
+                 "contain at least one event / record / byte; the engine's switch-reader cases (real TabletModeSwitchReader, class TABLET, clause "
+                 "C12.switch_reader) are counted in evaluations but observed by C12, not by C18"),
         "explanation": ("C18_wellformed, C18_roundtrip, C18_reader_filters (every interleaving of foreign records), C18_reader_exact (any timestamps), "
                         "C18_reader_never_panics and C18_codes_are_kernel_codes are proved about the model for all batches / streams; the model is "
                         "compared with the real writer and reader on every generated case (classes WRITE, READ), and the extracted specification "
